@@ -40,6 +40,9 @@ def _sig(rules, h, allowed, got):
         if dots:
             return "ph:trailing-dot-on-both-sides-not-matched;rules=" + "+".join(dots)
     rc = ",".join(sorted({_rule_class(r) for r in rel})) or "-"
+    junk = sorted({r.get("j", "?") for r in rules if r.get("k") == "junk"})
+    if junk:
+        rc += ";malformed-items=" + "+".join(junk)
     return "ph:host=%s;related-rules=%s;allowed=%s;got=%s" % (_host_class(h), rc, "|".join(sorted(allowed)) or "?", got[:60])
 
 
